@@ -28,7 +28,7 @@ OPS = (
     + [O("SliceNegStop", 0, 1, 1)]
     + [O("SliceFrom", 0, 0, 1), O("SliceFrom", 1, 0, 1), O("SliceFrom", 0, 0, 2)]
     + [O("Len"), O("Iter"), O("Bool"), O("Listify"), O("Reversed"), O("Copy")]
-    + [O("Contains", 0), O("Contains", 2), O("Eq", 0), O("Eq", 1), O("Count", 1)]
+    + [O("Contains", 0), O("Contains", 2), O("Eq", 0), O("Eq", 1), O("Eq", 2), O("Eq", 3), O("Eq", 4), O("Eq", 5), O("Eq", 6), O("Count", 1)]
     + [O("HasInd", i) for i in (0, 2, 3)]
     + [O("IterTake", 1), O("IterDrain"), O("CopyIndex", 0), O("CopyIndex", 1), O("CopyList")]
 )
@@ -97,7 +97,11 @@ def do_op(L, src, o, aux=None):
     if op == "Contains":
         return a in L
     if op == "Eq":
-        return L == (list(src) if a == 1 else list(src) + [9])
+        partner = {1: list(src), 5: list(src), 0: list(src) + [9], 2: list(src)[:-1], 6: list(src)[:-1], 3: [],
+                   4: (list(src)[:-1] + [9]) if src else [9]}[a]
+        from vyxal.LazyList import LazyList
+
+        return L == (LazyList(iter(partner)) if a in (5, 6) else partner)
     if op == "Count":
         return L.count(a)
     if op == "HasInd":
